@@ -152,9 +152,65 @@ impl Hook for WorkerHook {
     }
 }
 
+/// one `poll_next` by hand, as in the sequential mode: polled again as long as the stream woke itself
+fn poll_next_by_hand(stream: &mut crate::container::GuardStream) -> Option<Option<GuardBox>> {
+    let (flag, waker) = crate::container::flag_waker();
+    let mut cx = std::task::Context::from_waker(&waker);
+    let mut spins = 0usize;
+    loop {
+        flag.woken.store(false, std::sync::atomic::Ordering::SeqCst);
+        match stream.as_mut().poll_next(&mut cx) {
+            std::task::Poll::Ready(x) => return Some(x),
+            std::task::Poll::Pending => {
+                if !flag.woken.swap(false, std::sync::atomic::Ordering::SeqCst) {
+                    return None;
+                }
+                spins += 1;
+                if spins > 100_000 {
+                    panic!("harness: stream keeps waking itself");
+                }
+            }
+        }
+    }
+}
+
 fn run_program(prog: &[Stmt], slots: &mut Vec<Slot>, cont: &dyn Container, kind: Kind, t: usize) {
+    let mut stream: Option<crate::container::GuardStream> = None;
+    let mut sgot: std::collections::VecDeque<GuardBox> = std::collections::VecDeque::new();
     for stmt in prog {
         match stmt {
+            Stmt::SOpen { owned } => {
+                if stream.is_some() {
+                    push_event("skip".to_string());
+                } else {
+                    // the first poll of `lock_all_entries()` passes one G hook: the snapshot section
+                    let s = cont.lock_all(*owned).expect("set_prog rejects streams for the pool");
+                    stream = Some(s);
+                    push_event("sopen".to_string());
+                }
+            }
+            Stmt::SNext => match stream.as_mut() {
+                None => push_event("skip".to_string()),
+                Some(s) => match poll_next_by_hand(s) {
+                    Some(Some(g)) => {
+                        push_event(format!("item={}", g.key()));
+                        sgot.push_back(g);
+                    }
+                    Some(None) => push_event("snext=end".to_string()),
+                    None => push_event("snext=pending".to_string()),
+                },
+            },
+            Stmt::SDropG => match sgot.pop_front() {
+                Some(g) => drop(g),
+                None => push_event("skip".to_string()),
+            },
+            Stmt::SClose => match stream.take() {
+                Some(s) => {
+                    drop(s);
+                    push_event("sclosed".to_string());
+                }
+                None => push_event("skip".to_string()),
+            },
             Stmt::Lock { var, k, soft } => {
                 let slot = slots.len();
                 let base = 1000 * (t as u64 + 1) + 500;
@@ -270,6 +326,14 @@ fn run_program(prog: &[Stmt], slots: &mut Vec<Slot>, cont: &dyn Container, kind:
     for s in slots.iter_mut() {
         s.release();
     }
+    // then the guards the stream yielded, oldest first, then the stream itself
+    while let Some(g) = sgot.pop_front() {
+        drop(g);
+    }
+    if let Some(s) = stream.take() {
+        drop(s);
+        push_event("sclosed".to_string());
+    }
 }
 
 fn worker(shared: Arc<Shared>, t: usize, cont: Arc<dyn Container + Send + Sync>, kind: Kind, prog: Vec<Stmt>) {
@@ -377,6 +441,7 @@ impl SchedCase {
                 Stmt::Lock { var, soft, .. } => matches!(var, Variant::B | Variant::T | Variant::A) && soft.is_none(),
                 Stmt::Op(..) => false,
                 Stmt::ALock { owned, .. } => !*owned,
+                Stmt::SOpen { .. } | Stmt::SNext | Stmt::SDropG | Stmt::SClose => false,
                 _ => true,
             });
             if !ok {
